@@ -112,6 +112,12 @@ class FakeTransport(asyncio.DatagramTransport):
             self.net.log.append(("send-on-closed", self.loop.clock.now(), self.local, bytes(data)))
             return
         self.sent += 1
+        if getattr(self.net, "send_error", None) is not None:
+            # what asyncio's datagram transport does when sendto() raises OSError (interface down,
+            # no route): the datagram is lost and the protocol is told through error_received()
+            self.net.send_errors_reported = getattr(self.net, "send_errors_reported", 0) + 1
+            self.protocol.error_received(self.net.send_error)
+            return
         self.net.client_send(self, bytes(data), addr)
 
     def close(self):
